@@ -413,6 +413,9 @@ def analyse(node, ctxname):
         fam = family(cur)
         if fam:
             sig = fam
+        elif f[0] == "regroup" and cur[0] == "mul" and _leftmost_factor(cur[2])[0] == "div":
+            # same root cause as a*(b/c): a right operand of * that starts with a division is not bracketed
+            sig = mksig("regroup", "mul", "1:div")
         if sig not in seen:
             seen.add(sig)
             res.append((sig, f[1]))
@@ -440,6 +443,12 @@ def family(node):
     if bad and all(b in CRIT_CHILD for b in bad):
         return mksig("crit_operand", g)
     return None
+
+
+def _leftmost_factor(node):
+    while node[0] == "mul":
+        node = node[1]
+    return node
 
 
 def depth(node):
@@ -567,9 +576,9 @@ def shards(tier, sd):
     n = 6 if tier == "quick" else 32
     for k in range(n):
         out.append(("random", tier, sd * 1000 + k, None))
-    if tier == "thorough":
-        for k in range(16):
-            out.append(("depth3", tier, sd, k))
+    # depth-3 layer (parent(child(grandchild)) over the arithmetic / boolean operators and negative literals): cheap, so it runs in both tiers
+    for k in range(16):
+        out.append(("depth3", tier, sd, k))
     return out
 
 
@@ -593,7 +602,7 @@ def run_shard(shard):
             for pa in PARENT_POS[a]:
                 for b in ops:
                     for pb in PARENT_POS[b]:
-                        for c in ops + ("negint", "col"):
+                        for c in ops + ("negint", "negfloat", "col"):
                             n += 1
                             if n % 16 != arg:
                                 continue
